@@ -340,7 +340,7 @@ def _shard_elements(rec, arg):
 FX_LISTS = [("l", [1, 2, 3]), ("z", [1, 2, 3], 1), ("l", [("l", [1, 2]), ("l", [3, 4]), 9]), ("z", [("l", [1, 2]), ("l", [3])], 0),
             ("l", [("l", [1, 2]), ("l", [3])]), ("l", [("s", "ab"), ("s", "c")])]
 FX_SCALARS = [0, 1, -1, 2, ("s", "a")]
-FX_INDEX_LISTS = [("l", [0]), ("l", [("l", []), 1]), ("l", [1, ("l", [0])]), ("l", [("l", [0, 1])])]
+FX_INDEX_LISTS = [("l", [0]), ("l", [("l", []), 1]), ("l", [1, ("l", [0])]), ("l", [("l", [0, 1])]), ("l", [5, 0, 2]), ("l", [7, 1])]
 FX_FUNS = [("f", 0), ("f", 2)]
 
 
@@ -356,7 +356,7 @@ def _fixed_tuples(k):
     out = []
     for a in FX_LISTS:
         for b in FX_SCALARS[:4] + FX_INDEX_LISTS + FX_FUNS[:1]:
-            out += [[a, b, 9], [a, b, ("f", 0)], [b, a, 9]]
+            out += [[a, b, 9], [a, b, ("f", 0)], [b, a, 9], [a, b, ("f", 2)]]
     return out
 
 
